@@ -167,6 +167,7 @@ func c14Pairs(c *Ctx) []pairSpec {
 }
 
 func runC14(c *Ctx) {
+	runC14AcceptedFractionKeepsDevices(c)
 	borrow(c, "O17", "C07", "O2", "remaining share initialised only when absent", "the simulated allocation of a department is the running difference over ALL its victim queues of the scenario: re-reading the current allocation for every leaf forgets the earlier victims and the validator accepts scenarios that push the department below its deserved quota")
 	borrow(c, "O15", "C07", "O4", "snapshot rebuilt on every call", "the per-attempt copy of the queue attributes is what the reclaim validators read: a copy that survives from an earlier attempt no longer equals the queues' allocation after that attempt was committed")
 	borrow(c, "O16", "C01", "O7", "BindPod failure -> unallocate", "a bind that failed must be taken back in the session: otherwise node, job and queue keep charging a pod that is still pending")
@@ -645,4 +646,30 @@ func runC14ConvertPairs(c *Ctx) {
 			"Pipeline is reached without the unallocate of the allocation it replaces ("+pathStr(path)+"): the allocate handlers fire a second time without the matching deallocate, and the queue (and every ancestor) is charged twice for each converted pod")
 	}
 	c.Floor("O14", "MPT conversions", n, 1)
+}
+
+// runC14AcceptedFractionKeepsDevices (O18): what a pod is charged (AcceptedResource) equals what it holds. A fraction
+// candidate holds portion × devices: in setAcceptedResources the accepted GPU requirement of a fraction candidate is
+// built from the request's device count (GetNumOfGpuDevices) as well as from the portion and the memory.
+func runC14AcceptedFractionKeepsDevices(c *Ctx) {
+	f := c.Anchor("O18", "pkg/scheduler/api/node_info", "NodeInfo", "setAcceptedResources")
+	if f == nil {
+		return
+	}
+	n := 0
+	for _, in := range instrsIn(f, func(in ssa.Instruction) bool {
+		cc, ok := in.(ssa.CallInstruction)
+		if !ok || calleeOf(cc) == nil || !strings.HasPrefix(calleeOf(cc).Name(), "NewGpuResourceRequirement") {
+			return false
+		}
+		_, frac := hasFact(c.Fx.FactsAt(in), func(ft Fact) bool { return ft.Pol && isCallNamed(ft.T, "IsFractionCandidate") })
+		return frac
+	}) {
+		n++
+		t := termOf(in.(ssa.Value))
+		devices := t.contains(func(x *Term) bool { return x.Op == "call" && x.Fn != nil && x.Fn.Name() == "GetNumOfGpuDevices" })
+		c.Check(devices, "O18", "PROV", funcKey(f)+": the accepted requirement of a fraction candidate carries the device count", instrPos(in), "built from GetNumOfGpuDevices(), the portion and the memory",
+			"a fraction candidate's accepted GPU requirement is built without the request's device count: a pod holding a fraction of several devices is charged one device's portion to its queue, and the queue's limit admits more than configured")
+	}
+	c.Floor("O18", "PROV accepted requirements of fraction candidates", n, 1)
 }
